@@ -146,6 +146,32 @@ func c04(r *core.Report, p *core.Prog, thorough bool) {
 			c, isC := args[0].(*ssa.Const)
 			r.Check(isC && c.Value != nil && c.Value.ExactString() == "true", "C04.validate-body", "Validate:verify-public-key", p.Pos(call.Pos()), "VerifySignature must be asked to check the public key against the client id")
 			r.Check(core.ErrLeadsToFailure(call), "C04.validate-body", "Validate:verify-err", p.Pos(call.Pos()), "a bad signature must fail validation")
+			// every queued signed transfer is verified: complete loop over the queue, the
+			// check on the visited element, no iteration that skips it, loop finished before success
+			okLoop, why := false, "no complete loop over the signed-transfer queue verifying the visited element"
+			for _, rl := range RangeLoops(vf) {
+				if _, pth := core.BaseObject(rl.Slice); !strings.HasSuffix(pth, ".signedTransfers") {
+					continue
+				}
+				recv := core.Receiver(call.Common())
+				onElem := rl.IsElem(recv)
+				if ld, ok := recv.(*ssa.UnOp); ok && !onElem { // value receiver: *elem
+					onElem = rl.IsElem(ld.X)
+				}
+				okB, d := rl.BodyMustPass(p, call)
+				done := true
+				for _, ret := range core.SuccessExits(vf) {
+					if !rl.L.Header.Succs[1].Dominates(ret.Block()) {
+						done = false
+					}
+				}
+				if onElem && okB && done {
+					okLoop, why = true, ""
+				} else {
+					why = fmt.Sprintf("on-visited-element=%v loop-completed-before-success=%v %s", onElem, done, d)
+				}
+			}
+			r.Check(okLoop, "C04.validate-body", "Validate:every-signed-transfer-verified", p.Pos(call.Pos()), "no queued signed transfer is accepted without its own signature check (no cache/skip path); "+why)
 		}
 		// cap comparison: a failure exit dominated by `amount > totalValue`
 		capOK := false
